@@ -73,4 +73,27 @@ theorem C10_cdn_view (D : Bytes → Bytes) :
     IsReadOnly (CbcIO.ops PyFile.ops D) (CbcIO.invCbc (fun _ => True) PyFile.abs) (CbcIO.absCbc D PyFile.abs) :=
   CbcIO.cbc_isReadOnly D pyfile_isFile.toIsReadable
 
+/-- SD title directories: the listed contents are exactly the TMD records whose `<id>.app` exists, in TMD order - a missing
+    file removes its own record and nothing else (a `break` instead of `continue` falsifies this) -/
+theorem C10_sdtitle_selection (isfile : Bytes → Bool) (name : Tmd.ChunkRecord → Bytes) (records : List Tmd.ChunkRecord) :
+    SdTitle.select isfile name records = records.filter fun r => isfile (name r) := by
+  unfold SdTitle.select
+  have key : ∀ (acc : List Tmd.ChunkRecord),
+      records.foldl (fun acc r => if !isfile (name r) then acc else acc ++ [r]) acc =
+        acc ++ records.filter fun r => isfile (name r) := by
+    induction records with
+    | nil => intro acc; simp
+    | cons r rest ih =>
+      intro acc
+      simp only [List.foldl_cons, List.filter_cons]
+      by_cases h : isfile (name r) = true
+      · rw [h]
+        simp only [Bool.not_true, Bool.false_eq_true, if_false, if_true]
+        rw [ih]; simp
+      · have h' : isfile (name r) = false := by simpa using h
+        rw [h']
+        simp only [Bool.not_false, if_true, Bool.false_eq_true, if_false]
+        rw [ih]
+  simpa using key []
+
 end Pyctr.C10
